@@ -79,6 +79,26 @@ def anchorOf : Pred → Option Cell
   | .tmp _ t => some (.time t)
   | .imm _ => none
 
+/-- One binding step of a clause: an unnamed position binds nothing; an extraction that cannot apply
+    (`none`) fails the match. -/
+def bindStep (acc : Option Row) (kv : Bytes × Option Cell) : Option Row :=
+  if kv.1 = [] then acc else
+  match kv.2 with
+  | none => none
+  | some cell => bindSame acc kv.1 cell
+
+/-- What each position of a clause would bind on a triple, in the order the positions are read. -/
+def clauseSteps (c : Clause) (t : Triple) : List (Bytes × Option Cell) :=
+  [
+    (c.sBinding, some (.node t.s)), (c.sAlias, some (.node t.s)), (c.sTypeAlias, some (.str t.s.ty)),
+    (c.sIDAlias, some (.str t.s.id)), (c.pBinding, some (.pred t.p)), (c.pAlias, some (.pred t.p)),
+    (c.pIDAlias, some (.str t.p.id)), (c.pAnchorBinding, extract c.optional (anchorOf t.p)),
+    (c.pAnchorAlias, extract c.optional (anchorOf t.p)), (c.oBinding, some (objCell t.o)), (c.oAlias, some (objCell t.o)),
+    (c.oTypeAlias, extract c.optional (match t.o with | .node n => some (.str n.ty) | _ => none)),
+    (c.oIDAlias, extract c.optional (match t.o with | .node n => some (.str n.id) | .pred p => some (.str p.id) | _ => none)),
+    (c.oAnchorBinding, extract c.optional (match t.o with | .pred p => anchorOf p | _ => none)),
+    (c.oAnchorAlias, extract c.optional (match t.o with | .pred p => anchorOf p | _ => none))]
+
 /-- The row a clause binds on a triple, or `none` when the clause does not match it. -/
 def matchClause (c : Clause) (w : Window) (t : Triple) : Option Row :=
   if !constsMatch c t then none else
@@ -92,20 +112,7 @@ def matchClause (c : Clause) (w : Window) (t : Triple) : Option Row :=
       | .pred p => p.id ≠ c.oID || (c.oTemporal && c.oAnchorBinding = [] && p.anchor.isNone) ||
           (c.oAnchorBinding = [] && c.oTemporal && !(({ lower := c.oLower.map (·.nanos), upper := c.oUpper.map (·.nanos) } : Window).holds p))
       | _ => false) then none else
-  let steps : List (Bytes × Option Cell) := [
-    (c.sBinding, some (.node t.s)), (c.sAlias, some (.node t.s)), (c.sTypeAlias, some (.str t.s.ty)),
-    (c.sIDAlias, some (.str t.s.id)), (c.pBinding, some (.pred t.p)), (c.pAlias, some (.pred t.p)),
-    (c.pIDAlias, some (.str t.p.id)), (c.pAnchorBinding, extract c.optional (anchorOf t.p)),
-    (c.pAnchorAlias, extract c.optional (anchorOf t.p)), (c.oBinding, some (objCell t.o)), (c.oAlias, some (objCell t.o)),
-    (c.oTypeAlias, extract c.optional (match t.o with | .node n => some (.str n.ty) | _ => none)),
-    (c.oIDAlias, extract c.optional (match t.o with | .node n => some (.str n.id) | .pred p => some (.str p.id) | _ => none)),
-    (c.oAnchorBinding, extract c.optional (match t.o with | .pred p => anchorOf p | _ => none)),
-    (c.oAnchorAlias, extract c.optional (match t.o with | .pred p => anchorOf p | _ => none))]
-  steps.foldl (fun acc (k, v) =>
-    if k = [] then acc else
-    match v with
-    | none => none
-    | some cell => bindSame acc k cell) (some [])
+  (clauseSteps c t).foldl bindStep (some [])
 
 def rowTime (r : Row) (k : Bytes) : Option Int :=
   match r.get k with
